@@ -116,7 +116,10 @@ def run_ns(stage, uid, user=None, euid=None, by_name=False, no_out=False):
              + f'mount --bind {stage}/run /run/containers/systemd && '
              f'mount --bind {stage}/distro /usr/share/containers/systemd && '
              + (f'mkdir -p /etc/qv-users && mount --bind {stage}/usersreal /etc/qv-users && ' if os.path.isdir(os.path.join(stage, 'usersreal')) else '') +
+             # (what decides the mode is the command line; variables systemd sets for its generators — SYSTEMD_SCOPE — must not turn a user
+             # generator into a system one)
              f'env -u QUADLET_UNIT_DIRS HOME={stage}/home XDG_CONFIG_HOME={stage}/home/.config XDG_RUNTIME_DIR={stage}/xdgrun '
+             + ((f'SYSTEMD_SCOPE={"system" if sum(map(ord, stage)) % 3 else "user"} ' if user and sum(map(ord, stage)) % 2 else ''))
              + (f'setpriv --reuid={uid} --regid={uid} --clear-groups ' if uid != 0 and euid is None else '')
              # real and effective uid differ (a set-uid helper): the invoking — real — user's directory is the one to read
              + (f'setpriv --ruid={uid} --euid={euid} --regid={uid} --clear-groups ' if euid is not None else '')
